@@ -12,7 +12,7 @@
      outcome= L [] task returned | L [x] task raised
    input  = L [A 100; conn1; conn2] : two such connections on one server, output = L [out1; out2] *)
 From EN Require Import Lib.Bytes Lib.Sx Frame.Framer Frame.ReadUntil Frame.BufReadUntil Stream.Consumer Stream.Endpoint
-  Conc.StreamServer Run.Stream.
+  Conc.StreamServer Conc.StreamServerMulti Run.Stream.
 
 Definition as_sitem (x : sx) : option sitem :=
   match x with
@@ -89,10 +89,64 @@ Definition run1 (i : sx) : sx :=
   end.
 
 (* two connections served concurrently by one server:  L [A 100; conn1; conn2]  ->  L [out1; out2].
-   The model of a connection does not mention any other connection: the per-connection observables of a concurrent
-   run must be those of the two isolated runs. *)
+   Evaluated with the multi-connection model (Conc/StreamServerMulti.v) under a round-robin interleaving of the two tasks;
+   by Props/C15.v connection_runs_its_own_task any other fair interleaving gives the same components, namely the two
+   isolated single-connection runs. *)
+Section RunMulti.
+  Context {C : Type}.
+  Variable M : machine (option bytes) C.
+  Variable c0 : C.
+
+  Fixpoint round_robin (n : nat) : list nat := match n with 0 => [] | S n' => 0 :: 1 :: round_robin n' end.
+
+  Definition conn_sx (cn : option (@conn (option bytes) C)) : sx :=
+    match cn with Some (CDone f) => final_sx f | _ => bad_input end.
+
+  Definition run_pair (oc1 : nat) (acts1 : list hact) (o1 : speer) (oc2 : nat) (acts2 : list hact) (o2 : speer) : sx :=
+    let s := srun M (accept [(oc1, acts1, c0, o1); (oc2, acts2, c0, o2)])
+                  (round_robin (5 + length acts1 + length acts2)) in
+    L [conn_sx (nth_error s 0); conn_sx (nth_error s 1)].
+End RunMulti.
+
+Definition parse_conn (i : sx) : option (nat * list hact * speer) :=
+  match i with
+  | L (_ :: _ :: _ :: ps :: acs :: A oc :: _) =>
+      match as_list_of as_sitem ps, as_list_of as_act acs with
+      | Some o, Some acts => Some (Z.to_nat oc, acts, o)
+      | _, _ => None
+      end
+  | _ => None
+  end.
+
+Definition run2 (i1 i2 : sx) : sx :=
+  match i1 with
+  | L (A kind :: cfg :: d :: _ :: _ :: _ :: A bufsize :: _) =>
+      do dec <- mk_dec d;
+      do c1 <- parse_conn i1;
+      do c2 <- parse_conn i2;
+      let '(oc1, acts1, o1) := c1 in
+      let '(oc2, acts2, o2) := c2 in
+      let bs := Z.to_nat bufsize in
+      match kind, cfg with
+      | 0%Z, L [B sep; A limit; A ke] =>
+          let F := ru_framer sep (Z.to_nat limit) (Z.eqb ke 1) dec in
+          run_pair (copy_machine F bs) (cinit F) oc1 acts1 o1 oc2 acts2 o2
+      | 1%Z, L (B sep :: A limit :: A ke :: _) =>
+          let F := bru_framer sep (Z.to_nat limit) (Z.eqb ke 1) dec in
+          run_pair (buf_machine F bs) (bcinit F) oc1 acts1 o1 oc2 acts2 o2
+      | 2%Z, L [A size] =>
+          let F := rx_framer (Z.to_nat size) dec in
+          run_pair (copy_machine F bs) (cinit F) oc1 acts1 o1 oc2 acts2 o2
+      | 3%Z, L (A size :: _) =>
+          let F := bfx_framer (Z.to_nat size) dec in
+          run_pair (buf_machine F bs) (bcinit F) oc1 acts1 o1 oc2 acts2 o2
+      | _, _ => bad_input
+      end
+  | _ => bad_input
+  end.
+
 Definition run (i : sx) : sx :=
   match i with
-  | L [A 100%Z; i1; i2] => L [run1 i1; run1 i2]
+  | L [A 100%Z; i1; i2] => run2 i1 i2
   | _ => run1 i
   end.
